@@ -467,7 +467,7 @@ def search_world(run):
 
 PROPS['C11'] = {
     'modules': ['IpcModel.Props.C11'],
-    'theorems': ['C11.C11_own', 'C11.C11_restore', 'C11.C11_close_once', 'Ledger.inv_step', 'Ledger.roots_coincide'],
+    'theorems': ['C11.C11_own', 'C11.C11_restore', 'C11.C11_close_once', 'Ledger.inv_step', 'Ledger.roots_coincide', 'C11.C11_shape'],
     'scenarios': plus(world_scen(['default'], 300, 6000), res_scen(400, 8000)),
     'search': search_world,
     'rule': ('world: seeded single-threaded programs of ~40 public-API operations over up to 6 channels (create, clone, drop, send small/multi-packet with embedded senders / '
